@@ -278,6 +278,7 @@ def body_paths(method, backward=False, with_max_step=True, n=1, inv=None, max_pa
     for dec, trail, p in explore(run, max_paths=max_paths):
         p.decisions = dec
         p.trail = trail
+        p.dom.solver = None  # the incremental solver is only needed during exploration (memory)
         if p.outcome == ("end", "infeasible"):
             continue
         if p.head is None:
